@@ -1,7 +1,15 @@
 #!/bin/sh
 # MANIFEST.setup_cmd — build the whole framework offline from files on disk.
+# Every property crate is built on its own (`-p`), exactly as `./check` does, so
+# that cargo's feature unification matches and the first check does not rebuild
+# (the C20 crate enables the py-bindings features of the repo crates).
 set -e
 cd "$(dirname "$0")"
 export CARGO_NET_OFFLINE=true
-(cd harness && cargo build --release --workspace)
+cd harness
+for d in props/*/; do
+  c=$(basename "$d")
+  echo "[setup] building $c"
+  cargo build --release -p "$c"
+done
 echo "setup done"
